@@ -111,5 +111,14 @@ CHECKS["C06"] = dict(
          "forwarding of the options are checked",
     technique="concolic symbolic execution of the Python source on exact rational-function terms with exact LAPACK stand-ins; z3 decides residuals and "
               "pivot-order path flips; float replay of every path seed")
-for _p in ["C05","C09","C10","C16","C17","C18","C19"]:
+CHECKS["C05"] = dict(
+    text="for 12 leaves with true (parametrised) declarations and ~85 composites over every combinator (scalar multiples with positive / sign-free / complex "
+         "symbolic scalars, sums, Kronecker, BlockDiag, products incl. the A^H A / A^T A patterns on identical and different objects, slices, "
+         ".T/.H/Transpose/Adjoint) and for the outputs of lanczos, arnoldi and eig, every annotation the real inference rules report is turned into an "
+         "obligation on the reference matrix: M == M^H, M^H M == I, M M^H == I, and positive semi-definiteness via a Gram certificate M == C^H C "
+         "assembled along the tree or, without certificate, a z3 search for x with x^H M x < 0; declaring does not alter the operand",
+    note=_TB + "; PSD without a certificate is only decided when z3 finishes (n <= 3)",
+    technique="symbolic execution of the real annotation-inference rules / routines on symbolic payloads; z3 decides the matrix identities and the "
+              "quadratic-form inequality; counterexamples replayed on float NumPy")
+for _p in ["C09","C10","C16","C17","C18","C19"]:
     NA[_p] = "check under construction in this session (not yet registered); see DESIGN.md section 5 for the plan"
